@@ -43,6 +43,7 @@ def main():
         except Exception:
             cov = None
     mod = importlib.import_module(modname)
+    from harness import timebase as _tb
     cases = json.load(open(fin))
     signal.signal(signal.SIGALRM, _on_alarm)
     out = []
@@ -55,6 +56,8 @@ def main():
         try:
             signal.setitimer(signal.ITIMER_REAL, CASE_SECONDS)
             try:
+                _f = os.environ.get("VERIF_NUMMODE")
+                _tb.NUMMODE = int(_f) if _f else _tb.nummode_of(c)
                 r = mod.run(c)
             finally:
                 signal.setitimer(signal.ITIMER_REAL, 0)
